@@ -848,7 +848,11 @@ Interval<To_Boundary, To_Info>::mul_assign(const From1& x, const From2& y) {
                                  LOWER, f_lower(x), f_info(x),
                                  UPPER, f_upper(y), f_info(y));
     if (gt(LOWER, to_lower, to_info, LOWER, tmp, tmp_info)) {
-      to_lower = tmp;
+      // Move the candidate together with its boundary properties.
+      to_info.clear_boundary_properties(LOWER);
+      const Result r_copy
+        = Boundary_NS::assign(LOWER, to_lower, to_info, LOWER, tmp, tmp_info);
+      PPL_USED(r_copy);
       rl = tmp_r;
     }
     tmp_info.clear();
@@ -859,7 +863,11 @@ Interval<To_Boundary, To_Info>::mul_assign(const From1& x, const From2& y) {
                                  LOWER, f_lower(x), f_info(x),
                                  LOWER, f_lower(y), f_info(y));
     if (lt(UPPER, upper(), to_info, UPPER, tmp, tmp_info)) {
-      upper() = tmp;
+      // Move the candidate together with its boundary properties.
+      to_info.clear_boundary_properties(UPPER);
+      const Result r_copy
+        = Boundary_NS::assign(UPPER, upper(), to_info, UPPER, tmp, tmp_info);
+      PPL_USED(r_copy);
       ru = tmp_r;
     }
   }
